@@ -37,11 +37,15 @@ Inductive case :=
 Definition agree (c : case) : bool :=
   match c with
   | CDoc _ doc sruns rruns =>
-      forallb (fun r => res_eqb (print_schema (fst r) doc) (snd r)
-                        && (negb (wf_schema (fst r) doc && scalar_texts_plain (fst r) doc) || readback_schema_ok (fst r) doc)) sruns
+      forallb (fun r => res_eqb (print_schema (fst r) doc) (snd r)) sruns
+      && (* the reader against the model, on the first configuration of each schema *)
+         (match sruns with
+          | r :: _ => negb (wf_schema (fst r) doc && scalar_texts_plain (fst r) doc) || readback_schema_ok (fst r) doc
+          | [] => true
+          end)
       && forallb (fun r => res_eqb (print_resolvers (fst (fst r)) (snd (fst r)) doc) (snd r)
                            && (match snd (fst r) with
-                               | O => negb (nodup_keys (map tname (typedefs doc))) || readback_resolvers_ok (fst (fst r)) doc
+                               | O => negb (nodup_keys (map tname (typedefs doc)) && no_keyword_type_names doc) || readback_resolvers_ok (fst (fst r)) doc
                                | _ => true
                                end)) rruns
   | CJsdoc items => forallb (fun i => wops_eqb (print_description (fst i)) (snd i)) items
